@@ -144,6 +144,15 @@ func (e *Engine) mayReturn(info *types.Info) func(*ast.CallExpr) bool {
 
 // calleeObj resolves the called object of a call expression.
 func calleeObj(info *types.Info, call *ast.CallExpr) types.Object {
+	obj := calleeObjRaw(info, call)
+	// a method of an instantiated generic type, or an instantiated generic function: the declaration
+	if f, ok := obj.(*types.Func); ok && f.Origin() != nil {
+		return f.Origin()
+	}
+	return obj
+}
+
+func calleeObjRaw(info *types.Info, call *ast.CallExpr) types.Object {
 	fun := ast.Unparen(call.Fun)
 	switch f := fun.(type) {
 	case *ast.Ident:
@@ -154,12 +163,19 @@ func calleeObj(info *types.Info, call *ast.CallExpr) types.Object {
 		}
 		return info.Uses[f.Sel]
 	case *ast.IndexExpr: // generic instantiation
-		if id, ok := ast.Unparen(f.X).(*ast.Ident); ok {
-			return info.Uses[id]
-		}
-		if se, ok := ast.Unparen(f.X).(*ast.SelectorExpr); ok {
-			return info.Uses[se.Sel]
-		}
+		return genericFuncObj(info, f.X)
+	case *ast.IndexListExpr:
+		return genericFuncObj(info, f.X)
+	}
+	return nil
+}
+
+func genericFuncObj(info *types.Info, x ast.Expr) types.Object {
+	if id, ok := ast.Unparen(x).(*ast.Ident); ok {
+		return info.Uses[id]
+	}
+	if se, ok := ast.Unparen(x).(*ast.SelectorExpr); ok {
+		return info.Uses[se.Sel]
 	}
 	return nil
 }
